@@ -207,7 +207,19 @@ func (x *Exec) evalSelector(n *ast.SelectorExpr, st *St, fr *Frame, k kval) {
 			})
 			k(st, v)
 		case types.MethodVal:
-			k(st, &Val{Fn: &FnVal{Obj: sel.Obj().(*types.Func), Recv: base}, Ty: fr.typeOf(n)})
+			mobj := sel.Obj().(*types.Func)
+			v := &Val{Fn: &FnVal{Obj: mobj, Recv: base}, Ty: fr.typeOf(n)}
+			if mv, ok := x.W.CS.MethodVals[KeyOfFunc(mobj)]; ok && !x.pure {
+				// a method value of a trusted method: an opaque function value obeying the declared protocol
+				v.T = x.fresh("methodvalue", SRef)
+				x.assume(st, Neq(v.T, Null))
+				v.Proto = x.W.protoOf(mv.Proto)
+				if mv.Bind != nil {
+					env := &CEnv{X: x, Names: map[string]*Val{"self": v, "recv": base}, St: st, Pkg: x.Fn.Pkg}
+					x.wrapCfail("methodvalue binding", func() { x.assume(st, env.HypFormula(mv.Bind)) })
+				}
+			}
+			k(st, v)
 		default:
 			oos("unsupported selection kind at %s", x.W.pos(n.Pos()))
 		}
